@@ -9,11 +9,11 @@ and `decompose S` gives the same result on a renumbered graph (`C03_decompose_re
 Oracle (relational): the implementation compared with itself on equivalent inputs.  Tie: the model run on each
 spelling's own graph against the implementation on that spelling.
 """
-import itertools, json
+import itertools, json, collections
 from rdkit import Chem
-from . import common, lib_scheme as S, lib_molgen as G
+from . import common, lib_scheme as S, lib_molgen as G, lib_pipeline as P
 
-PROPS = ['PGA.Props.C03']
+PROPS = ['PGA.Props.C03', 'PGA.Props.Pipeline']
 GEN = ['Chars', 'MolQuery']
 OBLIGATIONS = ['PGA.Scheme.' + t for t in [
     'C03_cnt_relabel', 'C03_centres_relabel', 'C03_groupName_relabel', 'C03_groupCount_relabel',
@@ -21,11 +21,15 @@ OBLIGATIONS = ['PGA.Scheme.' + t for t in [
     'C03_aromatize_ring_equiv', 'C03_aromatize_rings_equiv', 'C03_aromatize_rotation_reflection',
     'C03_aromatize_order_partial', 'C03_aromatize_order_full_fails', 'C03_aromatize_update_literal', 'C03_aromatize_relabel', 'C03_relabel_wf', 'C03_embeds_relabel',
     'C03_decompose_relabel', 'C03_embeds_ring_presentation', 'C03_decompose_ring_presentation_partial',
-    'C03_decompose_ring_presentation_full_fails']]
+    'C03_decompose_ring_presentation_full_fails']] + ['PGA.Pipeline.' + t for t in P.OBLIGATIONS_C03]
 RULE = ('cases = (scheme, molecule, spelling): every molecule of the fixed pools and grown molecules, each written in several '
         'ways (random atom order incl. branch order and ring-closure choices, explicit vs implicit H, Kekule vs aromatic, '
         'molecule object vs SMILES; all atom permutations for <= 5 heavy atoms in the thorough tier), for the nine shipped '
-        'schemes. distinct = distinct (scheme, spelling); non-trivial = spelling differs from the canonical one.')
+        'schemes. distinct = distinct (scheme, spelling); non-trivial = spelling differs from the canonical one. '
+        'Pipeline step (C03 ∘ C01, C19 ∘ C14/C01): for a bounded number of (molecule, spelling) pairs per library with equal descriptors the whole call '
+        'chain lib.Estimate(lib.GetDescriptors(x), "thermochem") is compared at three temperatures; the mapping is re-keyed (Group objects parsed from '
+        'other spellings, library key objects, reversed order, zero-count paddings); every entry of every library file is looked up under other '
+        'spellings; each library is reloaded from files whose group names are respelled.')
 ASSUMPTIONS = ['A-graph: isomorphic inputs give isomorphic RDKit graphs with the same ring set (ring ORDER may differ: see F3)']
 TRUSTED = ['RDKit writes/reads the alternative spellings (RenumberAtoms, MolToSmiles canonical=False)']
 
@@ -133,6 +137,9 @@ def run(ctx):
         replay(ctx, rec)
     batch = []
     full = S.FullTie(ctx, max_cases=ctx.n(250, 3000))      # per library
+    pipe = P.PipeTie(ctx, max_cases=ctx.n(40, 500))        # per library: the composed pipeline (decompose, then estimate)
+    pipe.steps = collections.Counter()
+    P.load_keys_tie(ctx, rng, ctx.n(60, 600))
     for name, lib in libs_:
         kind = 'gas' if name in ('BensonGA', 'PPY') else 'surface'
         mols = list(G.FIXED_GAS if kind == 'gas' else G.FIXED_SURFACE + G.FIXED_GAS[:20])
@@ -148,6 +155,7 @@ def run(ctx):
                 ctx.violation('decomposition escapes with an unrelated exception', {'scheme': name, 'smiles': smi}, None, base)
                 continue
             # (a) other spellings
+            n_pipe = 0
             for sp in G.spellings(rng, smi, ctx.n(5, 20)):
                 if sp == smi:
                     continue
@@ -163,6 +171,9 @@ def run(ctx):
                 if not r.get('err', '').startswith('internal'):
                     full.add(lib, sp, r, {'scheme': name, 'smiles': sp}, S.impl_atoms(lib) if 'ok' in r else None,
                              S.hook_graph(lib) if 'ok' in r else None)
+                # third tie and the composition oracles (after the hook of this spelling's decomposition was read)
+                if n_pipe < 2 and 'ok' in base and 'ok' in r and S.same_counts(base['ok'], r['ok']):
+                    n_pipe += pipeline_step(ctx, name, lib, smi, sp, pipe, first=(n_pipe == 0))
             # (b) molecule object vs SMILES
             m = Chem.MolFromSmiles(smi)
             if m is not None:
@@ -208,7 +219,16 @@ def run(ctx):
                         ctx.count('permutations')
                         compare(ctx, name, lib, smi, base, sp, r, 'permutation')
         full.run()
+        pipe.run()
+        # C19 ∘ C14: the spelling of group names in the library's files
+        if ctx.time_left() > 90:
+            P.entry_lookup_oracle(ctx, name, lib, rng.randrange(2 ** 32))
+            P.scheme_names_oracle(ctx, name, lib)
+            sample = [x for (n_, x), o in pipe.memo.items() if n_ == name and 'ok' in o]
+            rng.shuffle(sample)
+            P.library_spelling_oracle(ctx, name, lib, rng.randrange(2 ** 32), sample[:ctx.n(4, 40)], pipe.open(name, lib)[1])
     full.run()
+    pipe.run()
     replies = ctx.model([b[0] for b in batch])
     if replies is not None:
         for (req, impl, where), rep in zip(batch, replies):
@@ -222,7 +242,28 @@ def run(ctx):
                 ctx.disagree('corr:c02.descriptors', where, impl['ok'], {k: float(v) for k, v in model.items()})
 
 
+def pipeline_step(ctx, name, lib, smi, sp, pipe, first=True):
+    """C03 ∘ C01 and C19 ∘ C01: the user's call chain `lib.Estimate(lib.GetDescriptors(x), 'thermochem')` on two spellings of one
+    molecule whose descriptors agree (the dicts may list them in different orders) gives the same outcome — error class, missing
+    descriptors, range, H/RT, Cp/R, S/R, G/RT at the library's temperatures, x'Mx; the same with the mapping re-keyed by `Group`
+    objects parsed from other spellings of the group names; each spelling also goes to the composed Lean model."""
+    if ctx.time_left() < 90 or not isinstance(sp, str) or pipe.steps[name] >= ctx.n(45, 600):
+        return 0
+    pipe.steps[name] += 1
+    info, Ts, _ = pipe.open(name, lib)
+    base = pipe.add(name, lib, smi)
+    other = pipe.add(name, lib, sp)
+    P.equiv_oracle(ctx, name, info, smi, base, sp, other, Ts)
+    P.sum_oracle(ctx, name, info, smi, base, Ts)
+    if first and pipe.steps[name] % 2 == 1:
+        P.respell_oracle(ctx, name, info, smi, base, Ts, ctx.rng.randrange(2 ** 32))
+    return 1
+
+
 def replay(ctx, rec):
+    r = P.replay_record(ctx, rec)
+    if r is not None:
+        return r
     inp = rec.get('input', rec)
     before = len(ctx.violations) + sum(k['count'] for k in ctx.known_seen.values())
     libs_ = dict(S.load_schemes())
@@ -245,7 +286,11 @@ LEVEL_TEXT = ('Lean 4 theorems: for every renumbering of the atoms of a graph (a
               '(C03_embeds_relabel), the perception commutes with the renumbering (C03_aromatize_relabel), the decomposition above the matcher depends on '
               'match sets and neighbour multisets only (C03_descriptors_relabel, C19). The perception is invariant under rotation/reflection of ring atom lists '
               'and under the order of the ring list when no two eligible rings share a bond (C03_aromatize_order_partial). The implementation is compared with '
-              'itself on equivalent spellings (relational oracle), with the end-to-end model on every spelling\'s own graph, and its perception with the model directly.')
+              'itself on equivalent spellings (relational oracle), with the end-to-end model on every spelling\'s own graph, and its perception with the model directly. '
+              'Composition (Props/Pipeline.lean): the composed model pipeline = estimate ∘ decompose has the same outcome — failure stage, missing descriptors, range, '
+              'Cp/R, H/RT, S/R at every temperature, x\'Mx, and H, G, S, Cp in every unit — on a renumbered graph (PIPE_relabel_invariant, PIPE_relabel_quadratic, '
+              'PIPE_dimensional_relabel) and under another presentation of bond-disjoint eligible rings (PIPE_ring_presentation_invariant_partial); the spelling of a group '
+              'name in a library file does not matter (PIPE_spelling_independent, PIPE_spelling_lookup), the spelling of a string key does (PIPE_spelling_raw_string_full_fails).')
 LEVEL_NOTE = ('Trusted: Lean kernel, standard axioms, RDKit for producing equivalent spellings and graphs (A-graph). Partial: invariance of the '
               'Benson aromatic perception under ring ORDER is false of the code for fused rings (F3, recorded; refuted in Lean at the 1-methylnaphthalene graph); '
               'rotation/reflection of a ring, ring order for bond-disjoint eligible rings, and renumbering are proved. Hypotheses of the end-to-end theorem: well-formed '
